@@ -30,25 +30,27 @@ from hypothesis import strategies as st
 # ------------------------------------------------------------------------------------------ pools
 LOCALS = ["v0", "v1", "v2"]
 
-VALUE_EXPRS = [
-    "n", "n + 1", "s", "u", "b", "none", "items[0]", "items[1]", "items[5]", "d['k']", 'd["missing"]',
-    "n / z", "obj", "obj.name", "obj.greet(n)", "obj.nope", "undefined_name", "s.upper()", "len(items)",
-    "f", "t", "'lit\"q'", '"{" + s + "}"', "escape(s)", "json_encode(d)", "url_escape(s)",
+VALUE_SAFE = [
+    "n", "n + 1", "s", "u", "b", "none", "items[0]", "items[1]", "d['k']", "obj", "obj.name", "obj.greet(n)",
+    "s.upper()", "len(items)", "f", "t", "'lit\"q'", '"{" + s + "}"', "escape(s)", "json_encode(d)", "url_escape(s)",
     "squeeze('a   b')", "[x * 2 for x in range(3)]", "'%s-%s' % (n, s)", "n if t else z", "str(b, 'utf8')",
-    "int('x')", "v0", "v1", "v2", "v0 + 1", "i0", "k0", "x0", "ch", "math.floor(f)", "floor(f)",
-    "type(ex).__name__", "(n +\n z)", "d", "items", "u * 2", "s[1:3]", "'%'", "'#' + s", "n % 2",
-    "{'a': 1}['a']", "obj.boom()",
+    "(n +\n z)", "d", "items", "u * 2", "s[1:3]", "'%'", "'#' + s", "n % 2", "({'a': 1}['a'])",
 ]
+VALUE_LOCAL = ["v0", "v1", "v2", "v0 + 1", "i0", "k0", "x0", "ch", "math.floor(f)", "floor(f)", "type(ex).__name__"]
+VALUE_RAISE = ["items[5]", 'd["missing"]', "n / z", "obj.nope", "undefined_name", "int('x')", "obj.boom()"]
+VALUE_EXPRS = VALUE_SAFE * 2 + VALUE_LOCAL + VALUE_RAISE
 SET_STMTS = [
-    "v0 = 1", "v1 = s", "v0 = v0 + 1", "v2 = items[5]", "v0, v1 = 1, 2", "v1 = [n, z]", "v2 = d['missing']",
-    "v0 += 1", "v2 = u", "v1 = obj", "v0 = n", "v2 = v1",
+    "v0 = 1", "v1 = s", "v0 = 1", "v1 = s", "v2 = u", "v2 = u", "v0, v1 = 1, 2", "v1 = [n, z]", "v1 = obj", "v0 = n",
+    "v0 = v0 + 1", "v2 = items[5]", "v2 = d['missing']", "v0 += 1", "v2 = v1",
 ]
 IMPORT_STMTS = ["import math", "from math import floor", "import os.path as osp", "from math import floor as fl"]
 CONDS = [
-    "t", "z", "n > 2", "none", "items", "empty", "n / z", "v0", "s == 'x'", "i0 == 1", "undefined_name",
-    "True", "False", "not z", "v0 == 1", "x0 == '<y>'", "d.get('k')",
+    "t", "z", "n > 2", "none", "items", "empty", "s == 'x'", "True", "False", "not z", "d.get('k')", "n == 3",
+    "t", "z", "n > 2", "none", "items", "empty", "s == 'x'", "True", "False", "not z", "d.get('k')", "n == 3",
+    "n / z", "v0", "i0 == 1", "undefined_name", "v0 == 1", "x0 == '<y>'",
 ]
 FOR_HEADS = [
+    "i0 in range(3)", "i0 in range(2)", "x0 in items", "ch in 'ab'", "k0, x0 in pairs",
     "i0 in range(3)", "i0 in range(n)", "x0 in items", "k0, x0 in sorted(d.items())", "k0, x0 in pairs",
     "x0 in empty", "x0 in none", "ch in 'ab'", "i0 in [1]", "x0 in d",
 ]
@@ -56,8 +58,8 @@ EXCEPT_SPECS = [
     "", "KeyError", "ZeroDivisionError", "(KeyError, IndexError)", "Exception", "Exception as ex",
     "NameError", "LookupError as ex", "undefined_exc", "TypeError", "AttributeError as ex",
 ]
-APPLY_FNS = ["up", "wrap", "ident", "rev", "xhtml_escape", "url_escape", "boom", "fns['up']", "undefined_fn", "linkify"]
-AUTOESCAPES = ["xhtml_escape", "None", "url_escape", "myesc", "fns['up']", "undefined_fn", "escape"]
+APPLY_FNS = ["up", "wrap", "ident", "rev", "up", "wrap", "ident", "rev", "xhtml_escape", "up", "wrap", "ident", "rev", "xhtml_escape", "url_escape", "boom", "fns['up']", "undefined_fn", "linkify"]
+AUTOESCAPES = ["xhtml_escape", "None", "url_escape", "myesc", "None", "xhtml_escape", "None", "url_escape", "myesc", "fns['up']", "undefined_fn", "escape"]
 WS_MODES = ["all", "single", "oneline"]
 BLOCK_NAMES = ["b0", "b1", "b2"]
 
@@ -325,7 +327,7 @@ def fix_loop_else(nodes):
 
 MUTATION_KINDS = [
     "del_end", "add_end_top", "add_end_nested", "unterminated", "empty_tag", "unknown_operator",
-    "intermediate", "jump", "no_name", "missing_arg", "opener_no_name", "bad_whitespace", "autoescape_empty",
+    "intermediate", "intermediate_in_apply", "intermediate_in_apply", "jump", "jump", "no_name", "missing_arg", "opener_no_name", "bad_whitespace", "autoescape_empty",
     "python_level",
 ]
 
@@ -374,6 +376,16 @@ def case_strategy(draw, profile="c19", pools=None, mutate_prob=(0, 3)):
                         free.discard(bname)
                         node = ["block", bname, [node]]
                 body.insert(draw(st.integers(0, len(body))), node)
+        # inheritance is only interesting with blocks: chain files get at least one most of the time
+        if in_chain and cfg["blocks"] and draw(st.integers(0, 3)) > 0:
+            bname = draw(st.sampled_from(sorted(cfg["blocks"])))
+            cfg["blocks"].discard(bname)
+            cfg["budget"][0] = 4
+            inner = draw(body_strategy(cfg, 1, False, cfg["budget"]))
+            body.insert(draw(st.integers(0, len(body))), ["block", bname, inner])
+        # locals that later expressions read are usually defined first
+        if draw(st.booleans()):
+            body[0:0] = [["set", "v0, v1 = 1, 2"], ["set", "v2 = u"]]
         body = fix_loop_else(body)
         extends = None
         if slot in ext:
@@ -677,11 +689,13 @@ def mutate(src, r, kind, selector, variant):
         new = insert_at(c[0], snippets[variant % len(snippets)])
         return {"src": new, "expect": "exact", "line": line_of(src, c[0]), "label": label, "kinds": kinds,
                 "snippet": snippets[variant % len(snippets)]}
-    if kind == "intermediate":
+    if kind in ("intermediate", "intermediate_in_apply"):
         ops = ["else", "elif t", "except", "finally", "except KeyError", "elif z"]
         snippet_op = ops[variant % len(ops)]
         op = snippet_op.split(" ")[0]
         cands = [p for p in r.points if p[1] not in _INTERMEDIATE_ALLOWED[op]]
+        if kind == "intermediate_in_apply":
+            cands = [p for p in cands if p[1] == "apply"]
         c = pick(cands)
         if c is None or src[:c[0]].endswith("{"):
             return None
